@@ -43,7 +43,7 @@ def extras(ctx):
     """Beyond the listed property (growth backlog): pwm_consensus / extract_signal / random_one_hot against UtilsExtra_Trace.
     A rejected event is reported as EXTRA-FINDING (it is not a violation of C15 and does not change the exit status)."""
     from .. import core
-    out = ctx.run_impl("x15", [dict(id=k, seed=ctx.seed * 31 + k, n=60 if ctx.quick else 1500) for k in range(4)], nproc=4)
+    out = ctx.run_impl("x15", [dict(id=k, seed=ctx.seed * 31 + k, n=60 if ctx.quick else 1500) for k in range(4)], nproc=4, timeout_s=3000 if ctx.quick else 9000, env=dict(VERIF_CASE_TIMEOUT=900 if ctx.quick else 3000))
     events = []
     for k in range(4):
         if out[k].get("st") in ("crashed", "timeout"):
